@@ -182,7 +182,15 @@ int main(int argc, char** argv) {
             bool ok = accepted([&] { ubjson::decode_ubjson<json>(in, ubjson::ubjson_options{}.max_items(m)); }, err);
             if (ok == c["refuse"].as_bool()) fail(idx, c, ok ? "max_items-exceeded-accepted" : "within-max_items-refused", err);
         } else if (k == "claim") {
-            const std::string& f = c["f"].str(); std::vector<uint8_t> in = bv::bytes_of(c["head"]); auto ex = bv::bytes_of(c["extra"]); in.insert(in.end(), ex.begin(), ex.end());
+            const std::string& f = c["f"].str(); std::vector<uint8_t> in = bv::bytes_of(c["head"]); auto ex = bv::bytes_of(c["extra"]);
+            if (c.has("at") && c["at"].as_int() > 0) {      // enclosing array + one filler string, so that the header ends at the given offset
+                size_t at = (size_t)c["at"].as_int(), hl = in.size(); std::vector<uint8_t> pre;
+                if (f == "cbor") { size_t L = at - hl - 4; pre = {0x9f, 0x59, (uint8_t)(L >> 8), (uint8_t)L}; pre.insert(pre.end(), L, (uint8_t)'a'); }
+                else if (f == "msgpack") { size_t L = at - hl - 6; pre = {0xdc, 0x00, 0x02, 0xc5, (uint8_t)(L >> 8), (uint8_t)L}; pre.insert(pre.end(), L, (uint8_t)'a'); }
+                else { size_t L = at - hl - 5; pre = {'[', 'S', 'I', (uint8_t)(L >> 8), (uint8_t)L}; pre.insert(pre.end(), L, (uint8_t)'a'); }
+                in.insert(in.begin(), pre.begin(), pre.end());
+            }
+            in.insert(in.end(), ex.begin(), ex.end());
             long long base = g_cur.load(); g_peak.store(base);
             bool ok = decode_with_limit(f, in, 1024, err);
             long long peak = g_peak.load() - base; long long bound = 64LL * (long long)in.size() + 262144LL;
@@ -194,6 +202,14 @@ int main(int argc, char** argv) {
             peak = g_peak.load() - base;
             if (ok2) fail(idx, c, "claim-beyond-supply-accepted-stream", "");
             if (peak > bound + 65536) fail(idx, c, "memory-proportional-to-claim-stream", "peak=" + std::to_string(peak));
+            // the same through an iterator range (iterator_source)
+            {   base = g_cur.load(); g_peak.store(base); std::string e4;
+                bool ok4 = accepted([&] { if (f == "cbor") cbor::decode_cbor<json>(in.begin(), in.end()); else if (f == "msgpack") msgpack::decode_msgpack<json>(in.begin(), in.end());
+                                          else if (f == "ubjson") ubjson::decode_ubjson<json>(in.begin(), in.end()); else bson::decode_bson<json>(in.begin(), in.end()); }, e4);
+                peak = g_peak.load() - base;
+                if (ok4) fail(idx, c, "claim-beyond-supply-accepted-iterators", "");
+                if (peak > bound + 65536) fail(idx, c, "memory-proportional-to-claim-iterators", "peak=" + std::to_string(peak)); }
+            if (c.has("at") && c["at"].as_int() > 0) return;     // (the typed decodes below take the header as the root item)
             // the same decoded straight into C++ containers (decode_traits): no allocation for the claimed length either
             auto typed = [&](const char* what, auto tag) {
                 using T = decltype(tag); base = g_cur.load(); g_peak.store(base); std::string e3; bool threw_foreign = false;
